@@ -26,7 +26,7 @@ PIn == <<120, 121, 122>>
 
 Plain == <<[op |-> "recv_body"], [op |-> "recv_trailers"], [op |-> "send_response", status |-> 200, fields |-> <<>>], [op |-> "finish"]>>
 
-ScnW(C, before, wt, ku, kb, finIn, payIn, wr) ==
+ScnX(C, before, wt, ku, kb, finIn, payIn, wr, splitBi) ==
     LET pre == [i \in 1..before |-> 4 * (i - 1)]
         reqs == LET RECURSIVE F(_) F(i) == IF i > before THEN <<>> ELSE <<Dl(pre[i], Frame(1, GetSec)), [op |-> "fin", sid |-> pre[i]]>> \o F(i + 1) IN F(1)
         uniBytes == UniHdr(C) \o payIn
@@ -36,13 +36,14 @@ ScnW(C, before, wt, ku, kb, finIn, payIn, wr) ==
         cfg |-> [grease |-> FALSE, wt |-> wt, datagram |-> TRUE, ext_connect |-> TRUE, write |-> wr],
         default_handler |-> Plain,
         wt_prog |-> (IF wt THEN <<[op |-> "open_uni", payload |-> P1], [op |-> "open_bi", payload |-> P2], [op |-> "send_datagram", payload |-> P3],
-                                  [op |-> "read_datagram"], [op |-> "accept_uni"], [op |-> "accept_bi"]>>
+                                  [op |-> "read_datagram"], [op |-> "accept_uni"], [op |-> "accept_bi", split |-> splitBi]>>
                      ELSE <<[op |-> "open_uni", payload |-> P1], [op |-> "accept_uni"]>>),
         steps |-> <<Dl(2, PeerSettings)>> \o reqs \o <<Dl(C, Frame(1, ConnectSec))>>
                   \o <<[op |-> "datagram", bytes |-> EncodeInt(C \div 4) \o P3]>>
                   \o SplitDeliver(14, uniBytes, ku) \o (IF finIn THEN <<[op |-> "fin", sid |-> 14]>> ELSE <<>>)
                   \o (IF wt THEN SplitDeliver(biSid, biBytes, kb) \o (IF finIn THEN <<[op |-> "fin", sid |-> biSid]>> ELSE <<>>) ELSE <<>>)]
 
+ScnW(C, before, wt, ku, kb, finIn, payIn, wr) == ScnX(C, before, wt, ku, kb, finIn, payIn, wr, FALSE)
 Scn(C, before, wt, ku, kb, finIn, payIn) == ScnW(C, before, wt, ku, kb, finIn, payIn, "all")
 
 VARIABLE out
@@ -53,6 +54,8 @@ Next == /\ out = <<>>
            \/ \E C \in {4, 256}, finIn \in BOOLEAN : \E kb \in 0..Len(BiHdr(C) \o PIn) : out' = Scn(C, 0, TRUE, 0, kb, finIn, PIn)
            \/ \E before \in {1, 2}, finIn \in BOOLEAN : out' = Scn(4 * before, before, TRUE, 0, 0, finIn, PIn)
            \/ \E C \in {0, 4} : \E ku \in {0, 2} : out' = Scn(C, 0, FALSE, ku, 0, TRUE, PIn)
+           \* the application splits the incoming bidirectional stream before reading it (header and payload cut at every offset)
+           \/ \E C \in {0, 256}, finIn \in {TRUE} : \E kb \in 0..Len(BiHdr(C) \o PIn) : out' = ScnX(C, 0, TRUE, 0, kb, finIn, PIn, "all", TRUE)
            \* the transport takes the server's writes (stream headers included) one or three bytes at a time
            \/ \E C \in {0, 252, 256, 65536}, wr \in {"1", "3"}, finIn \in BOOLEAN : out' = ScnW(C, 0, TRUE, 0, 0, finIn, PIn, wr)
 Spec == Init /\ [][Next]_out
